@@ -196,6 +196,10 @@ def generated(quick):
     # inputs reported by reviewers of the unchanged tree (kept so that each stays either repaired or on record)
     for f in sorted(glob.glob(os.path.join(build.VERIF, 'corpus', 'reported', '*.c'))):
         add('reported/' + os.path.basename(f), open(f, 'rb').read())
+    # a string initialiser followed by designated elements at every index around its end (C07's units; here for the memory errors of the overlay)
+    from . import c07
+    for k, (src, _, (et, st)) in enumerate(c07.string_then_element_units()):
+        add('string-then-element/%s/%d' % (et.replace(' ', '-'), k), src)
     # type origins x type consumers (most are valid; the invalid combinations must be diagnosed, not crash)
     for label, data in typegrid(quick):
         add(label, data)
